@@ -177,6 +177,8 @@ def compare(case, obs, replies):
             continue
         if m in ('bad-job', 'bad-expr'):
             return 'model cannot parse %s' % where
+        if o[0] == 'err' and o[1] not in UNIT_ERRORS and magnitude_trigger(r['tree'], o[1]):
+            continue   # Python arithmetic on magnitudes: see c04.compare
         if m[0] == 'err':
             if o[0] != 'err' or o[1] != m[1].replace('Other:', ''):
                 return '%s: model %s, implementation %s' % (where, m, o[:2])
